@@ -240,6 +240,80 @@ impl<T: Send> MpmcShared<T> {
     Err(TrySendError::Full(item))
   }
 
+  /// A receiver that was chosen for a wake-up (its state was set to SUCCESS) but goes away without receiving
+  /// passes the wake on: otherwise a buffered item can be left with every remaining receiver still parked.
+  pub(crate) fn forward_recv_wake(&self) {
+    let mut guard = self.internal.lock();
+    if guard.is_empty() {
+      return;
+    }
+    let mut i = 0;
+    while i < guard.waiting_async_receivers.len() {
+      let waiter_state = unsafe { &*guard.waiting_async_receivers[i].state };
+      if waiter_state
+        .compare_exchange(STATE_WAITING, STATE_SUCCESS_SPACE, Ordering::SeqCst, Ordering::SeqCst)
+        .is_ok()
+      {
+        let waiter = guard.waiting_async_receivers.remove(i).unwrap();
+        drop(guard);
+        waiter.waker.wake();
+        return;
+      }
+      i += 1;
+    }
+    let mut i = 0;
+    while i < guard.waiting_sync_receivers.len() {
+      let waiter_state = unsafe { &*guard.waiting_sync_receivers[i].state };
+      if waiter_state
+        .compare_exchange(STATE_WAITING, STATE_SUCCESS_SPACE, Ordering::SeqCst, Ordering::SeqCst)
+        .is_ok()
+      {
+        let waiter = guard.waiting_sync_receivers.remove(i).unwrap();
+        drop(guard);
+        waiter.thread.unpark();
+        return;
+      }
+      i += 1;
+    }
+  }
+
+  /// The sender-side twin of `forward_recv_wake`: a sender that was woken for free space but goes away
+  /// without sending passes the wake on to the next parked sender.
+  pub(crate) fn forward_send_wake(&self) {
+    let mut guard = self.internal.lock();
+    if self.capacity == 0 || guard.is_full(self.capacity) {
+      return;
+    }
+    let mut i = 0;
+    while i < guard.waiting_async_senders.len() {
+      let waiter_state = unsafe { &*guard.waiting_async_senders[i].state };
+      if waiter_state
+        .compare_exchange(STATE_WAITING, STATE_SUCCESS_SPACE, Ordering::SeqCst, Ordering::SeqCst)
+        .is_ok()
+      {
+        let waiter = guard.waiting_async_senders.remove(i).unwrap();
+        drop(guard);
+        waiter.waker.wake();
+        return;
+      }
+      i += 1;
+    }
+    let mut i = 0;
+    while i < guard.waiting_sync_senders.len() {
+      let waiter_state = unsafe { &*guard.waiting_sync_senders[i].state };
+      if waiter_state
+        .compare_exchange(STATE_WAITING, STATE_SUCCESS_SPACE, Ordering::SeqCst, Ordering::SeqCst)
+        .is_ok()
+      {
+        let waiter = guard.waiting_sync_senders.remove(i).unwrap();
+        drop(guard);
+        waiter.thread.unpark();
+        return;
+      }
+      i += 1;
+    }
+  }
+
   pub(crate) fn try_recv_core(&self) -> Result<T, TryRecvError> {
     let mut guard = self.internal.lock();
 
